@@ -14,6 +14,13 @@ from .inputs import ctx_spec, SCOPE, M, ITEMS
 from . import inputs  # noqa
 
 W.contract(
+    "vyxal/helpers.py::primitive_type",
+    params=dict(item=ListOf(VAL)), result=STR, ensures=["result != 'scalar'"], trusted=True,
+    note="primitive_type of a list is the list type, which is not SCALAR_TYPE ('scalar'); the result is only ever compared with SCALAR_TYPE",
+    props=["C09", "C11", "C12"],
+)
+
+W.contract(
     "vyxal/helpers.py::wrapify",
     params=dict(item=ListOf(VAL), count=INT, ctx=ctx_spec()),
     lets={"S0": "item", "ins0": "ctx.inputs", "top0": "ctx.use_top_input"},
@@ -229,6 +236,18 @@ class StructExecutor(LeafExecutor):
         # happens while the body's own input scope is the innermost one
         if getattr(fn, "name", "") == "pop" and fr.fn_name.startswith(("_lambda", "VAR_")) and args and args[0] is fr.env.get("stack") and "ins0" in fr.env:
             self.oblige("C11-reads-in-own-scope", self.eval_clause("len(ctx.inputs) == len(ins0) + 1", fr), node, tag=f"[{fr.fn_name}]")
+        # C11 / C09: the stack protocol functions must be handed the running program's context; a call that leaves
+        # ctx out falls back to the module-level default context (no inputs, offline)
+        if getattr(fn, "name", "") in ("pop", "wrapify", "get_input") and getattr(fn, "node", None) is not None and "ctx" in fr.env:
+            names = [a.arg for a in fn.node.args.args]
+            given = kwargs.get("ctx")
+            if given is None and "ctx" in names and names.index("ctx") < len(args):
+                given = args[names.index("ctx")]
+            ok = given is fr.env["ctx"]
+            self.oblige("C11-context-threaded", z3.BoolVal(bool(ok)), node, tag=f"[{fr.fn_name}:{fn.name}]")
+            if not ok:
+                args = list(args[: names.index("ctx")]) if "ctx" in names else list(args)
+                kwargs = dict(kwargs, ctx=fr.env["ctx"])  # go on as the correct call would, the obligation above has failed
         return super().call_function(fn, args, kwargs, node, fr, **kw)
 
     def e_Name(self, n, fr):
